@@ -91,7 +91,7 @@ pub fn transliterate(d: Dialect, sql: &str) -> Result<String, String> {
     Ok(s)
 }
 
-pub fn check_spec(ctx: &Ctx, rep: &mut Report, fx: &Fixture, n: u64, spec: &Stmt) {
+pub fn check_spec(ctx: &Ctx, rep: &mut Report, fx: &Fixture, n: u64, spec: &Stmt, pinned: Option<&str>) {
     rep.eval();
     let ordered = matches!(spec, Stmt::Sel(q) if q.total_order);
     let kinds = clause_kinds(spec);
@@ -150,7 +150,10 @@ pub fn check_spec(ctx: &Ctx, rep: &mut Report, fx: &Fixture, n: u64, spec: &Stmt
             rep.violation(
                 "R.same-query",
                 d.name(),
-                format!("{what}: {}", sigk()),
+                match pinned {
+                    Some(l) => format!("{l} -> {what}"),
+                    None => format!("{what}: {}", sigk()),
+                },
                 json!({"mode": mode, "transliterated": sql, "outcome": show_outcome(o),
                        "sqlite_rendering": outs[4].2, "sqlite_outcome": show_outcome(&pivot)}),
                 ctx.shard,
@@ -176,8 +179,35 @@ pub fn check_spec(ctx: &Ctx, rep: &mut Report, fx: &Fixture, n: u64, spec: &Stmt
     }
 }
 
+fn pinned(ctx: &Ctx, rep: &mut Report, fx: &Fixture) {
+    use crate::xspec::X;
+    use sea_query::Value;
+    let n = 1u64 << 50;
+    if (ctx.replay.is_none() && ctx.shard != 0) || !ctx.wants(n) {
+        return;
+    }
+    // ORDER BY FIELD(..) combined with NULLS LAST
+    let spec = Stmt::Sel(Sel {
+        items: vec![
+            Item { expr: X::QCol("t1".into(), "c".into()), alias: Some("o1".into()), window: None },
+            Item { expr: X::QCol("t1".into(), "id".into()), alias: Some("o2".into()), window: None },
+        ],
+        from: vec![From_::Table("t1".into(), None)],
+        orders: vec![
+            Ord_ { expr: X::Col("o1"), dir: Dir::Field(vec![Value::from("x")]), nulls_first: Some(false) },
+            Ord_ { expr: X::Col("o2"), dir: Dir::Asc, nulls_first: None },
+        ],
+        limit: Some(12),
+        out: vec!["o1".into(), "o2".into()],
+        total_order: true,
+        ..Default::default()
+    });
+    check_spec(ctx, rep, fx, n, &spec, Some("pinned: ORDER BY FIELD with NULLS LAST"));
+}
+
 pub fn check(ctx: &Ctx, rep: &mut Report) {
     let fx = Fixture::new();
+    pinned(ctx, rep, &fx);
     let total = ctx.size(5_000, 1_280_000) / ctx.nshards;
     for k in 0..total {
         if !ctx.wants(k) {
@@ -191,6 +221,6 @@ pub fn check(ctx: &Ctx, rep: &mut Report) {
         if ctx.verbose {
             println!("spec: {spec:#?}");
         }
-        check_spec(ctx, rep, &fx, k, &spec);
+        check_spec(ctx, rep, &fx, k, &spec, None);
     }
 }
